@@ -10,11 +10,15 @@ package main
 //   seed <keyhex> <fmt> <datahex> <flags>   privileged write (flags: - or letters s c x)
 //   seedstruct <keyhex> <jsonhex>           privileged write of a native Go struct record
 //   m <msghex> [annotations]     DatabaseAPI.Handle(msg), wait for quiescence, canonical reply batch
+//                                (annotation c=<n>: the message is a window into a buffer with n bytes of spare capacity)
+//   late                         read every reply of this connection AGAIN, through the very slices the send function was
+//                                given, and compare with the copies taken at send time: "ok" or "changed …"
 //   end                          connection teardown; late replies
 //   conc <json>                  concurrent scenario; answers with the JSON trace
 
 import (
 	"bufio"
+	"bytes"
 	"context"
 	"encoding/json"
 	"fmt"
@@ -103,7 +107,10 @@ type worker struct {
 	cond      *sync.Cond
 	api       *api.DatabaseAPI
 	priv      *database.Interface
-	replies   [][]byte
+	replies   [][]byte // copies taken inside the send function
+	held      [][]byte // the slices as they were handed to the send function — never copied, read again later
+	replyLine []int    // worker line during which the reply arrived
+	curLine   int
 	begins    int
 	ends      int
 	expected  int
@@ -205,10 +212,14 @@ func (w *worker) sink(point string, args ...any) {
 	}
 }
 
+// send is the connection's send function. Like DatabaseWebsocketAPI's (which only queues the slice for its writer
+// goroutine) it keeps the slice it was given; the copy is what the reply was at that moment.
 func (w *worker) send(data []byte) {
 	cp := append([]byte(nil), data...)
 	w.mu.Lock()
 	w.replies = append(w.replies, cp)
+	w.held = append(w.held, data)
+	w.replyLine = append(w.replyLine, w.curLine)
 	if w.tracing {
 		w.trace = append(w.trace, traceEv{K: "rep", H: hx(cp)})
 	}
@@ -312,7 +323,8 @@ func (w *worker) reset() string {
 	a := api.CreateDatabaseAPI(w.send)
 	w.mu.Lock()
 	w.api = &a
-	w.replies = nil
+	w.replies, w.held, w.replyLine = nil, nil, nil
+	w.curLine = -1
 	w.begins, w.ends, w.expected = 0, 0, 0
 	w.subs = map[any]*subState{}
 	w.fed = map[any]int{}
@@ -412,7 +424,16 @@ func (w *worker) batch(n0 int) string {
 	return rawBatch(rs, func(k string) bool { return w.tainted[k] })
 }
 
-func (w *worker) handleMsg(msg []byte) {
+// spareFill: plausible bytes for the spare capacity behind a message: anything read beyond a sub-slice of the
+// message would show up as a request
+const spareFill = "|cancel|query hmap:|J{\"x\":1}|9|get|"
+
+const defaultSpare = 32
+
+// handleMsg hands msg to Handle as a window into a larger buffer with `spare` bytes of capacity behind it (a
+// websocket reader's buffer: gorilla's ReadMessage is io.ReadAll, capacity ≥ 512). The buffer belongs to Handle
+// from then on, as it does on the real transport: nothing else ever touches it.
+func (w *worker) handleMsg(msg []byte, spare int) {
 	c := classify(msg)
 	w.mu.Lock()
 	if c.spawns() {
@@ -426,12 +447,65 @@ func (w *worker) handleMsg(msg []byte) {
 	case "create", "update", "insert":
 		w.touched[c.Arg] = true
 	}
-	// the message is handed over as a window into a larger buffer whose spare capacity holds plausible
-	// bytes: anything appended to (or read beyond) a sub-slice of the message would show
-	buf := make([]byte, len(msg), len(msg)+32)
+	buf := make([]byte, len(msg), len(msg)+spare)
 	copy(buf, msg)
-	copy(buf[len(msg):cap(buf)], "|cancel|query hmap:|J{\"x\":1}|9|get|")
+	for tail := buf[len(msg):cap(buf)]; len(tail) > 0; {
+		tail = tail[copy(tail, spareFill):]
+	}
 	w.api.Handle(buf)
+}
+
+// spareOf reads the c=<n> annotation of an m line.
+func spareOf(ann []string) int {
+	for _, a := range ann {
+		if strings.HasPrefix(a, "c=") {
+			if n, err := strconv.Atoi(a[2:]); err == nil && n >= 0 && n <= 1<<20 {
+				return n
+			}
+		}
+	}
+	return defaultSpare
+}
+
+// late reads every reply of the connection again through the slice the send function was given and compares it
+// with the copy taken at send time. A reply is a message: once handed over it must not change (the websocket
+// writer reads it after later replies were produced).
+//
+//	ok
+//	changed n=<count> first=<line>:<hex at send time>:<hex now> L<line>=<late batch, entries joined by ','> …
+func (w *worker) late() string {
+	w.mu.Lock()
+	defer w.mu.Unlock()
+	n, first := 0, -1
+	lines := map[int]bool{}
+	for i := range w.replies {
+		if !bytes.Equal(w.held[i], w.replies[i]) {
+			n++
+			if first < 0 {
+				first = i
+			}
+			lines[w.replyLine[i]] = true
+		}
+	}
+	if n == 0 {
+		return "ok"
+	}
+	out := fmt.Sprintf("changed n=%d first=%d:%s:%s", n, w.replyLine[first], hx(w.replies[first]), hx(append([]byte(nil), w.held[first]...)))
+	var order []int
+	for l := range lines {
+		order = append(order, l)
+	}
+	sort.Ints(order)
+	for _, l := range order {
+		var rs []reply
+		for i := range w.held {
+			if w.replyLine[i] == l {
+				rs = append(rs, parseReply(append([]byte(nil), w.held[i]...)))
+			}
+		}
+		out += fmt.Sprintf(" L%d=%s", l, strings.ReplaceAll(rawBatch(rs, func(k string) bool { return w.tainted[k] }), " ", ","))
+	}
+	return out
 }
 
 func (w *worker) msg(f []string) string {
@@ -443,7 +517,7 @@ func (w *worker) msg(f []string) string {
 		return "bad-op"
 	}
 	n0 := w.nreplies()
-	w.handleMsg(msg)
+	w.handleMsg(msg, spareOf(f[2:]))
 	if !w.waitFor(w.quiescent, wedgeTimeout) {
 		return w.wedge("no quiescence after message " + f[1])
 	}
@@ -486,6 +560,20 @@ type concStep struct {
 	Op    string `json:"op,omitempty"`    // hold: operation id hex
 	N     int    `json:"n,omitempty"`     // hold: nth occurrence / sleep µs
 	ID    int    `json:"id,omitempty"`    // hold id
+	C     int    `json:"c,omitempty"`     // m: spare capacity of the request buffer + 1 (0: the default)
+}
+
+func (st concStep) spare() int {
+	if st.C > 0 {
+		return st.C - 1
+	}
+	return defaultSpare
+}
+
+// lateDiff: the n-th reply of the trace (0-based) reads differently at the end of the scenario than when it was sent
+type lateDiff struct {
+	N   int    `json:"n"`
+	Now string `json:"now"`
 }
 
 type concScenario struct {
@@ -508,6 +596,7 @@ type concResult struct {
 	Trace []traceEv `json:"trace"`
 	Live  []string  `json:"live"` // op ids (hex) of subscriptions cancelled by the epilogue
 	Note  string    `json:"note,omitempty"`
+	Late  []lateDiff `json:"late,omitempty"`
 }
 
 func (w *worker) liveSubOps() []string {
@@ -547,7 +636,7 @@ func (w *worker) conc(arg string) string {
 	for _, st := range sc.Steps {
 		switch st.T {
 		case "m":
-			w.handleMsg(unhx(st.H))
+			w.handleMsg(unhx(st.H), st.spare())
 		case "seed":
 			key := string(unhx(st.H))
 			r, _ := record.NewWrapper(key, nil, uint8(st.F), unhx(st.D))
@@ -609,7 +698,7 @@ func (w *worker) conc(arg string) string {
 			}
 			for _, op := range live {
 				res.Live = append(res.Live, hx([]byte(op)))
-				w.handleMsg([]byte(op + "|cancel"))
+				w.handleMsg([]byte(op+"|cancel"), defaultSpare)
 				if !w.waitFor(w.quiescent, wedgeTimeout) {
 					return w.wedge("no quiescence after epilogue cancel")
 				}
@@ -622,6 +711,13 @@ func (w *worker) conc(arg string) string {
 	w.teardown()
 	w.mu.Lock()
 	res.Trace = append([]traceEv(nil), w.trace...)
+	// the replies once more, through the slices the send function was given (tracing was on for the whole
+	// connection: the n-th "rep" event is the n-th reply)
+	for i := range w.replies {
+		if !bytes.Equal(w.held[i], w.replies[i]) {
+			res.Late = append(res.Late, lateDiff{N: i, Now: hx(append([]byte(nil), w.held[i]...))})
+		}
+	}
 	w.mu.Unlock()
 	b, _ := json.Marshal(res)
 	return string(b)
@@ -679,6 +775,11 @@ func workerMain() {
 		line = strings.TrimRight(line, "\r\n")
 		var res string
 		f := strings.Fields(line)
+		if len(f) > 0 && f[0] != "reset" {
+			w.mu.Lock()
+			w.curLine++ // index of this line in its case (reset is not a case line)
+			w.mu.Unlock()
+		}
 		switch {
 		case len(f) == 0:
 			res = "bad-op"
@@ -692,6 +793,8 @@ func workerMain() {
 			res = w.reset()
 		case w.api == nil:
 			res = "no-connection"
+		case f[0] == "late":
+			res = w.late()
 		case f[0] == "seed":
 			res = w.seed(f)
 		case f[0] == "seedstruct":
